@@ -28,6 +28,8 @@ def classify_crash(rc, stderr_text):
         return "asan:%s%s" % (m.group(1), ":" + topfn if topfn else ""), (m.group(0) + (" in " + top if top else ""))[:400]
     if "AddressSanitizer:DEADLYSIGNAL" in err or "AddressSanitizer" in err[-3000:]:
         return "asan:deadly-signal%s" % (":" + topfn if topfn else ""), ("AddressSanitizer deadly signal" + (" in " + top if top else ""))[:400]
+    if rc == 79 or "SIM-WATCHDOG" in err[-2000:]:
+        return "hang:cpu-spin", "a rank spun without making any MPI call until the per-run CPU budget was exhausted (livelock outside MPI)"
     if rc < 0:
         return "crash:signal%d" % (-rc), "worker killed by signal %d %s" % (-rc, top)
     return "crash:exit%d" % rc, "worker exited with status %d %s" % (rc, err[-300:].replace("\n", " | "))
@@ -117,10 +119,12 @@ def run_batch(exe, base_seed, nruns, time_limit, cfg="", nworkers=None, extra=No
     return results, crashes
 
 
+WATCHDOG_SINGLE = {"c16_dispatch": 30}
+
 def run_single(exe, seed, cfg=None, choices=None, default_choices=False, want_choices=False, want_trace=False, timeout=600):
     """one run in a fresh process; returns a result dict (crash -> synthesized result)"""
     os.makedirs(TMP, exist_ok=True)
-    cmd = [exe, "--seed-start", str(seed), "--max-runs", "1"]
+    cmd = [exe, "--seed-start", str(seed), "--max-runs", "1", "--watchdog", str(WATCHDOG_SINGLE.get(os.path.basename(exe), 150))]
     if cfg: cmd += ["--cfg", cfg]
     cf = None
     if choices is not None:
